@@ -2,14 +2,17 @@
    Property theorems only.  Models: Model/Quota.v, Model/QuotaDistributor.v;
    proofs: Proofs/QD_proofs.v, Props/GenTie_Quota.v, Proofs/GetNBest_proofs.v.
 
-   Domain of the positive theorems: positive quota, distinct parties, and no
-   party's whole quotas above its cap (explicit or the default cap n_seats) -
-   i.e. the cap branch of QuotaDistributor is not entered.  On the pinned tree
-   the capped statement of the property is REFUTED (C02_caps_refuted,
-   C02_lr_caps_refuted); it stays below as C02_caps_full_statement. *)
+   The model is the library WITH fixes/C02-capbranch.diff and fixes/C02-lr-caps.diff: whole quotas
+   are cut at the cap (no cap unless one is given), LargestRemainder passes the caps to the quota
+   stage.  The capped clause is a theorem for every input (C02_caps, C02_lr_caps, C02_lr_caps_total);
+   the theorems stated on the domain where no whole-quota count exceeds a cap (no_overshoot) are kept
+   and follow from the general ones.  The code as written on the pinned tree stays expressible
+   (qd_evaluate_at / lr_evaluate_at false) and the capped statements are REFUTED of it
+   (C02_caps_refuted, C02_default_cap_refuted, C02_lr_caps_refuted). *)
 From Coq Require Import ZArith QArith Qround List Permutation.
 From VL Require Import Prelude.PyDict Model.GetNBest Model.Quota Model.QuotaDistributor
-     Proofs.GetNBest_proofs Proofs.QOrd Proofs.QD_proofs Proofs.QD2_proofs.
+     Proofs.GetNBest_proofs Proofs.QOrd Proofs.QD_proofs Proofs.QD2_proofs Proofs.QDOrder_proofs Proofs.LRMono_proofs
+     Proofs.QDCaps_proofs.
 Import ListNotations.
 Open Scope Z_scope.
 
@@ -53,6 +56,26 @@ Section C02.
          else QD_ok (plain sel)).
   Proof. exact (qd_whole_quotas quota accept_equal pol). Qed.
 
+  (* the same for every input, caps included: each party is awarded min(int(v/q), cap) - prev when positive
+     (cap_add), then the over-award policy is applied to the total *)
+  Theorem C02_capped_quotas_and_policies : forall votes n prev caps,
+    let q := quota (qsumv votes) n in
+    ~ (q == 0)%Q -> NoDup (map fst votes) ->
+    exists sel,
+      (forall c v, In (c, v) votes -> dget_or sel c 0 = cap_add accept_equal q prev caps c v) /\
+      (forall c, ~ In c (map fst votes) -> dget_or sel c 0 = 0) /\
+      (forall c s, In (c, s) sel -> 0 < s /\ In c (map fst votes)) /\
+      qd_evaluate quota accept_equal pol votes n prev caps =
+        (if n <? zsumv sel + zsumv prev then
+           match pol with
+           | PIgnore => QD_ok (plain sel)
+           | PError => QD_vse
+           | PSubtract => subtract (Z.to_nat (zsumv sel + zsumv prev - n)) votes q prev sel
+                                   (zsumv sel + zsumv prev - n)
+           end
+         else QD_ok (plain sel)).
+  Proof. exact (qd_capped_quotas quota accept_equal pol). Qed.
+
   (* int() is the floor on the non-negative ratios that occur *)
   Theorem C02_whole_is_floor : forall x : Q, (0 <= x)%Q -> py_trunc x = Qfloor x.
   Proof. exact py_trunc_floor. Qed.
@@ -61,7 +84,7 @@ Section C02.
   Theorem C02_lr_structure : forall votes n prev caps sel,
     let q := quota (qsumv votes) n in
     ~ (q == 0)%Q ->
-    qd_evaluate quota accept_equal pol votes n prev [] = QD_ok (plain sel) ->
+    qd_evaluate quota accept_equal pol votes n prev caps = QD_ok (plain sel) ->
     let gained := add_dict sel prev in
     let nrem := n - zsumv gained in
     lr_evaluate quota accept_equal pol votes n prev caps =
@@ -141,6 +164,18 @@ Theorem C02_subtract_policy : forall quota accept_equal votes n prev caps,
       ksum res + zsumv prev = Z.min n (zsumv sel + zsumv prev).
 Proof. exact qd_subtract_domain. Qed.
 
+(* ... and with any caps (positive quota, distinct parties) *)
+Theorem C02_subtract_policy_capped : forall quota accept_equal votes n prev caps,
+  let q := quota (qsumv votes) n in
+  (0 < q)%Q -> NoDup (map fst votes) ->
+  qd_evaluate quota accept_equal PSubtract votes n prev caps <> QD_unmodelled /\
+  exists sel,
+    (forall c v, In (c, v) votes -> dget_or sel c 0 = cap_add accept_equal q prev caps c v) /\
+    (forall c, ~ In c (map fst votes) -> dget_or sel c 0 = 0) /\
+    forall res, qd_evaluate quota accept_equal PSubtract votes n prev caps = QD_ok res ->
+      ksum res + zsumv prev = Z.min n (zsumv sel + zsumv prev).
+Proof. exact qd_subtract_capped. Qed.
+
 (* the branch, on inputs replayed on the implementation (corpus/C02/subtract-after-tie-*.json): quota 10, two parties
    on 30 votes, 4 seats: both tie for the first withdrawal, the Tie key is withdrawn next - {A: 2, B: 2};
    three parties on 30 votes, 5 seats: {A: 1, B: 1, C: 1, Tie{A,B,C}: 2} *)
@@ -151,33 +186,137 @@ Example C02_subtract_after_tie :
     = QD_ok [(K 1%positive, 1); (K 2%positive, 1); (K 3%positive, 1); (KT [1%positive; 2%positive; 3%positive], 2)].
 Proof. split; vm_compute; reflexivity. Qed.
 
-(* ---- the capped clause: full statement, and its refutation on the pinned tree *)
-Definition C02_caps_full_statement : Prop :=
+(* ---- the capped clause, for every input.
+   held ae q prev caps c v = max(prev[c], min(whole quotas of v, cap[c]))  - the seats a party holds after the whole-quota
+   stage, previous gains included; held_total = their sum (plus the previous gains of parties without votes);
+   below_cap = the parties that may still take a seat (Proofs/QDCaps_proofs.v).  [fixed] selects the modelled code:
+   true = with fixes/C02-capbranch.diff + fixes/C02-lr-caps.diff, false = the pinned tree. *)
+Definition C02_caps_full_statement_at (fixed : bool) : Prop :=
   forall quota ae pol votes n prev caps sel,
-    qd_evaluate quota ae pol votes n prev caps = QD_ok sel ->
-    forall c m, dget caps c = Some m -> dget_or prev c 0 <= m ->
-      (* a capped party is held at its cap when its whole quotas reach it *)
-      (forall v, In (c, v) votes -> m <= whole_add ae (quota (qsumv votes) n) [] c v ->
-         kdget sel c + dget_or prev c 0 = m).
+    NoDup (map fst votes) -> Forall (fun cs : C * Z => 0 <= snd cs) prev ->
+    qd_evaluate_at quota ae pol fixed votes n prev caps = QD_ok sel ->
+    let q := quota (qsumv votes) n in
+    (* caps are never exceeded *)
+    (forall c m, dget caps c = Some m -> dget_or prev c 0 <= m -> kdget sel c + dget_or prev c 0 <= m) /\
+    (* nobody holds more than the whole quotas in its votes, cut at its cap; parties without votes get nothing *)
+    (forall c v, In (c, v) votes -> kdget sel c + dget_or prev c 0 <= held ae q prev caps c v) /\
+    (forall c, ~ In c (map fst votes) -> kdget sel c = 0) /\
+    (* unless on_overaward = 'subtract' has to withdraw seats, everybody holds exactly that: a party whose whole quotas
+       reach its cap is held at the cap, every other party receives its whole quotas *)
+    ((pol = PSubtract -> held_total ae q prev caps votes <= n) ->
+       forall c v, In (c, v) votes -> kdget sel c + dget_or prev c 0 = held ae q prev caps c v).
+Definition C02_caps_full_statement : Prop := C02_caps_full_statement_at true.
 
-Theorem C02_caps_refuted : ~ C02_caps_full_statement.
+Theorem C02_caps : C02_caps_full_statement.
 Proof.
-  intros H.
-  specialize (H droop true PError [(1%positive, 60#1); (2%positive, 30#1); (3%positive, 10#1)]%Q 5 []
-                [(1%positive, 2)] [(K 1%positive, 0); (K 2%positive, 2)] eq_refl 1%positive 2 eq_refl).
-  assert (Hc : 0 <= 2) by (vm_compute; discriminate).
-  specialize (H Hc (60#1)%Q (or_introl eq_refl)).
-  assert (Hw : 2 <= whole_add true (droop (qsumv [(1%positive, 60#1); (2%positive, 30#1); (3%positive, 10#1)]%Q) 5) [] 1%positive (60#1)%Q)
-    by (vm_compute; discriminate).
-  specialize (H Hw). vm_compute in H. discriminate.
+  unfold C02_caps_full_statement, C02_caps_full_statement_at, qd_evaluate_at.
+  intros quota ae pol votes n prev caps sel Hnd Hp Hr. exact (qd_caps quota ae pol votes n prev caps sel Hnd Hp Hr).
 Qed.
 
-(* LargestRemainder never passes max_seats to the quota stage: a party capped at 2 ends with 3 *)
-Theorem C02_lr_caps_refuted :
-  lr_evaluate droop true PError [(1%positive, 60#1); (2%positive, 30#1); (3%positive, 10#1)]%Q 5 []
+(* the pinned tree: a party capped at 2 with 3 whole quotas is reset to 0 seats *)
+Theorem C02_caps_refuted : ~ C02_caps_full_statement_at false.
+Proof.
+  intros H.
+  destruct (H droop true PError [(1%positive, 60#1); (2%positive, 30#1); (3%positive, 10#1)]%Q 5 []
+              [(1%positive, 2)] [(K 1%positive, 0); (K 2%positive, 2)]) as (_ & _ & _ & H4).
+  - repeat constructor; simpl; intuition discriminate.
+  - constructor.
+  - vm_compute. reflexivity.
+  - specialize (H4 (fun E => match E with eq_refl => I end) 1%positive (60#1)%Q (or_introl eq_refl)).
+    vm_compute in H4. discriminate.
+Qed.
+
+(* the pinned tree enters the same branch without any cap (default cap n_seats): a single party with 5 Imperiali quotas
+   and 3 seats, on_overaward = 'ignore', ends with 0 seats instead of keeping the surplus *)
+Theorem C02_default_cap_refuted :
+  qd_evaluate_at imperiali true PIgnore false [(1%positive, 15#1)]%Q 3 [] [] = QD_ok [(K 1%positive, 0)] /\
+  qd_evaluate_at imperiali true PIgnore true [(1%positive, 15#1)]%Q 3 [] [] = QD_ok [(K 1%positive, 5)] /\
+  held true (imperiali (15#1) 3) [] [] 1%positive (15#1)%Q = 5.
+Proof. repeat split; vm_compute; reflexivity. Qed.
+
+(* LargestRemainder: kposs = the seats under the party's key plus one if the party is a member of a tie object *)
+Definition C02_lr_caps_full_statement_at (fixed : bool) : Prop :=
+  forall quota ae pol votes n prev caps sel,
+    NoDup (map fst votes) -> NoDup (map fst prev) -> Forall (fun cs : C * Z => 0 <= snd cs) prev ->
+    lr_evaluate_at quota ae pol fixed votes n prev caps = LR_ok sel ->
+    let q := quota (qsumv votes) n in
+    (* caps are never exceeded, a seat that may come through a tie object included *)
+    (forall c m, dget caps c = Some m -> dget_or prev c 0 <= m -> kposs sel c + dget_or prev c 0 <= m) /\
+    (forall c, ~ In c (map fst votes) -> kposs sel c = 0) /\
+    (* unless seats are withdrawn: at least the whole quotas cut at the cap, at most one further seat *)
+    ((pol = PSubtract -> held_total ae q prev caps votes <= n) ->
+       forall c v, In (c, v) votes ->
+         held ae q prev caps c v <= kdget sel c + dget_or prev c 0 /\
+         kposs sel c + dget_or prev c 0 <= held ae q prev caps c v + 1) /\
+    (* the total: every open seat is filled as long as parties below their caps remain *)
+    (held_total ae q prev caps votes <= n ->
+       ksum sel + zsumv prev =
+         held_total ae q prev caps votes
+         + Z.min (n - held_total ae q prev caps votes) (Z.of_nat (length (filter (below_cap ae q prev caps) votes)))).
+Definition C02_lr_caps_full_statement : Prop := C02_lr_caps_full_statement_at true.
+
+Theorem C02_lr_caps : C02_lr_caps_full_statement.
+Proof.
+  unfold C02_lr_caps_full_statement, C02_lr_caps_full_statement_at, lr_evaluate_at.
+  intros quota ae pol votes n prev caps sel Hnd Hpn Hp Hr. exact (lr_caps quota ae pol votes n prev caps sel Hnd Hpn Hp Hr).
+Qed.
+
+(* "the total is unchanged": with caps the house is still filled exactly whenever the open seats do not outnumber the
+   parties that may take one *)
+Theorem C02_lr_caps_total : forall quota ae pol votes n prev caps sel,
+  NoDup (map fst votes) -> NoDup (map fst prev) -> Forall (fun cs : C * Z => 0 <= snd cs) prev ->
+  lr_evaluate quota ae pol votes n prev caps = LR_ok sel ->
+  let q := quota (qsumv votes) n in
+  held_total ae q prev caps votes <= n ->
+  n - held_total ae q prev caps votes <= Z.of_nat (length (filter (below_cap ae q prev caps) votes)) ->
+  ksum sel + zsumv prev = n.
+Proof.
+  intros quota ae pol votes n prev caps sel Hnd Hpn Hp Hr q Hle Hopen.
+  destruct (lr_caps quota ae pol votes n prev caps sel Hnd Hpn Hp Hr) as (_ & _ & _ & H4). fold q in H4.
+  rewrite (H4 Hle). rewrite Z.min_l by exact Hopen. ring.
+Qed.
+
+(* the pinned tree: LargestRemainder never passes max_seats to the quota stage: a party capped at 2 ends with 3 *)
+Example C02_lr_caps_pinned_example :
+  lr_evaluate_at droop true PError false [(1%positive, 60#1); (2%positive, 30#1); (3%positive, 10#1)]%Q 5 []
               [(1%positive, 2)]
   = LR_ok [(K 1%positive, 3); (K 2%positive, 2)].
 Proof. vm_compute. reflexivity. Qed.
+
+Theorem C02_lr_caps_refuted : ~ C02_lr_caps_full_statement_at false.
+Proof.
+  intros H.
+  destruct (H droop true PError [(1%positive, 60#1); (2%positive, 30#1); (3%positive, 10#1)]%Q 5 []
+              [(1%positive, 2)] [(K 1%positive, 3); (K 2%positive, 2)]) as (H1 & _).
+  - repeat constructor; simpl; intuition discriminate.
+  - constructor.
+  - constructor.
+  - vm_compute. reflexivity.
+  - specialize (H1 1%positive 2 eq_refl). vm_compute in H1. apply H1; [intros E; inversion E|reflexivity].
+Qed.
+
+(* the repaired code on the same inputs: the capped party is held at 2, the seat it cannot take goes to the largest remainder;
+   whole quotas above the house are judged by the over-award policy (pinned tree: ZeroDivisionError from the cap branch) *)
+Example C02_caps_example :
+  qd_evaluate droop true PError [(1%positive, 60#1); (2%positive, 30#1); (3%positive, 10#1)]%Q 5 [] [(1%positive, 2)]
+    = QD_ok [(K 1%positive, 2); (K 2%positive, 1)] /\
+  lr_evaluate droop true PError [(1%positive, 60#1); (2%positive, 30#1); (3%positive, 10#1)]%Q 5 [] [(1%positive, 2)]
+    = LR_ok [(K 1%positive, 2); (K 2%positive, 2); (K 3%positive, 1)] /\
+  lr_evaluate_at hagenbach_bischoff true PError false [(1%positive, 0#1); (3%positive, 0#1); (2%positive, 0#1); (4%positive, 18#1)]%Q 2 [] []
+    = LR_err QD_zerodiv /\
+  lr_evaluate_at hagenbach_bischoff true PError true [(1%positive, 0#1); (3%positive, 0#1); (2%positive, 0#1); (4%positive, 18#1)]%Q 2 [] []
+    = LR_err QD_vse.
+Proof. repeat split; vm_compute; reflexivity. Qed.
+
+(* non-vacuity of the hypotheses of C02_lr_caps_total on an input whose cap binds: 3 seats held after the whole quotas
+   (party 1 cut from 3 to 2), 2 open seats, 2 parties below their caps: the house of 5 is filled *)
+Example C02_lr_caps_total_example :
+  let votes := [(1%positive, 60#1); (2%positive, 30#1); (3%positive, 10#1)]%Q in
+  let q := droop (qsumv votes) 5 in
+  held_total true q [] [(1%positive, 2)] votes = 3 /\
+  length (filter (below_cap true q [] [(1%positive, 2)]) votes) = 2%nat /\
+  whole_q true q (60#1)%Q = 3.
+Proof. repeat split; vm_compute; reflexivity. Qed.
 
 (* non-vacuity of the positive domain *)
 Example C02_example :
@@ -192,8 +331,14 @@ Print Assumptions C02_lr_structure.
 Print Assumptions C02_remainder_seats.
 Print Assumptions C02_at_most_one.
 Print Assumptions C02_lr_total.
+Print Assumptions C02_capped_quotas_and_policies.
+Print Assumptions C02_caps.
 Print Assumptions C02_caps_refuted.
+Print Assumptions C02_default_cap_refuted.
+Print Assumptions C02_lr_caps.
+Print Assumptions C02_lr_caps_total.
 Print Assumptions C02_lr_caps_refuted.
+Print Assumptions C02_subtract_policy_capped.
 Print Assumptions C02_subtract_one_loop.
 Print Assumptions C02_subtract_total.
 Print Assumptions C02_subtract_modelled.
